@@ -22,6 +22,11 @@
 // (relay_test.go). Where the knowledge is the library's own, a protocol the responder has
 // stopped announcing must be gone from it at quiescence (withdrawalDelivered in runScenario;
 // TestWithdrawnSmall in bothways_test.go enumerates that dimension).
+//
+// scopes_test.go makes the resource manager part of the history: streams that stay open over
+// many steps on 2..4 hosts, run-time limit changes on protocol / peer / service scopes,
+// collection passes of unused scopes, disconnects and reconnects, with every scope's Stat()
+// compared against the harness' own count of open streams after every step.
 package c07
 
 import (
@@ -93,7 +98,18 @@ func TestMain(m *testing.M) {
 			"that protocol's handler - stale-after-removal is tolerated while the announcement is in flight, not after it was delivered, on limited connections as on direct ones. "+
 			"Labels withdrawn-id-listed-before-common-protocol[:must-be-refreshed[:conn:...]] count the cases with such an open (must-be-refreshed = the extra rule applies to it). "+
 			"TestWithdrawnSmall: 3 connection kinds x which host serves x withdrawn registration (exact | matcher the opener negotiated through) x replaced or not x 7 first operations x pushes settled / in flight, "+
-			"history open [X]; withdraw X; open [X,Y]; (quiescence) open [X,Y].",
+			"history open [X]; withdraw X; open [X,Y]; (quiescence) open [X,Y]. "+
+			"Resource-scope histories (TestScopes, TestScopesSmall; scopes_test.go): 2..4 BasicHosts with fixed exact handlers (some attach their streams to a service scope), 4..16 steps drawn for the state they meet "+
+			"(a hot-spot host and protocol draw 2/3 of the traffic): connect / disconnect / reconnect, open (request = the one protocol the responder serves or none, optionally with an ID it does not serve before or behind it; "+
+			"the stream then STAYS open), close by the opener, by the handler or by both, a run-time limit change on a protocol, peer or service scope of some host (View<Scope> + ResourceScopeLimiter.SetLimit; "+
+			"total / inbound / outbound stream limits drawn around the scope's current usage: below it, exactly full, one or two free, lifted), and a collection pass of a host's resource manager "+
+			"(rcmgr.VerifGC hook = the body of the once-a-minute job, or a virtual minute passing on all hosts) at any quiescent point. Oracle = the harness' own list of open streams and of the limits it set: "+
+			"after every step Stat() of every protocol / peer / service scope on every host counts exactly the open streams charged to it, by direction; an open is refused only where a limit the harness set does not admit "+
+			"one more stream on top of that count (then nothing stays charged, and no handler runs if the responder's peer or protocol scope refused), every other open with a common protocol reaches exactly the right handler "+
+			"and is counted on both sides from then on; a collection pass is invisible. Non-trivial there = a limit was set while streams charged to that scope were open, or an open was refused by a limit, or a peer whose own "+
+			"scope was collected (it was away during a pass) while the protocol / service scope stayed in use opens that protocol again. Labels limit:..., open:..., collect:..., close:..., reconnect count the cases containing such a step. "+
+			"TestScopesSmall: 3 hosts, {nobody, C->B, B->C keeps an X stream open at B} x {no limit, limit on X before first use, on X / on the peer's scope while A's stream is open} x first opener x "+
+			"{A's stream closed, A disconnects, B disconnects} x {no pass, pass at B, at A and B, a minute passes} x returning opener x service attached or not, then limit := exactly full, refused open, oldest stream closed, admitted open.",
 		"go-multistream (select / lazy select / muxer) is a trusted dependency, exercised but not modelled",
 		"handler changes are applied between batches of opens, never concurrently with an open, so 'installed when the open started' is well defined; "+
 			"the batch starts at quiescence (synctest.Wait), except in the both-directions rounds marked no_settle, where only the identify pushes caused by the changes are still in flight "+
@@ -108,6 +124,9 @@ func TestMain(m *testing.M) {
 		"failure on first use is accepted as: a Write (also an empty one), CloseWrite or Close may be accepted locally (lazy select does not wait for the answer), "+
 			"the first Read (also one into an empty buffer) must return an error and no data; for a stream closed at once only 'no application handler runs' is demanded",
 		"not generated as first operations: Reset, CloseRead, deadline-only use; a stream the dialer resets may or may not reach a handler, the statement is silent there",
+		"resource-scope histories: 'charged to the scope' is read as 'counted by the scope's Stat() and against its limit' (the resource manager's documented meaning); limits other than stream counts (memory, connections, FDs) and the "+
+			"system / transient / per-peer-per-protocol scopes stay unlimited; only BasicHosts (BlankHost ignores the scope's answer); steps are applied at quiescence, one open at a time; "+
+			"rcmgr.VerifGC (verif build tag) is trusted to run exactly what the background job runs",
 	)
 	hx.Main(m)
 }
